@@ -251,7 +251,7 @@ pub fn run(args: &Args) {
     );
     let rt = tokio::runtime::Builder::new_current_thread().enable_all().build().unwrap();
     let book = rt.block_on(AddressBook::builder().spawn()).expect("address book spawns offline");
-    let sets = args.n(500, 30_000);
+    let sets = args.n(300, 5_000);
     let actor_every = 1u64; // every set also goes through the actor, with fewer orders
     let mut exhaustive_sets = 0u64;
     for s in 0..sets {
@@ -260,7 +260,8 @@ pub fn run(args: &Args) {
         let set = gen_set(&mut rng, small);
         let id = set.key.verifying_key();
         let n = set.recs.len();
-        let (ords, complete) = orders(&mut rng, n, if n <= 6 { 720 } else { 60 });
+        let quick = args.tier == vh_common::Tier::Quick;
+        let (ords, complete) = orders(&mut rng, n, if n <= 6 { if quick { 150 } else { 720 } } else { 60 });
         if complete {
             exhaustive_sets += 1;
         }
